@@ -102,6 +102,9 @@ def random_lattice(rng, kind: str | None = None, rotate: bool | None = None, lo=
         rotate = bool(rng.integers(2))
     if rotate:
         m = m @ random_rotation(rng).T
+        if rng.uniform() < 0.25:
+            # left-handed setting (mirror image): same cell parameters, negative determinant
+            m = m @ np.diag([1.0, 1.0, -1.0])
     return kind, bool(rotate), m
 
 
